@@ -147,6 +147,9 @@ def struct_surface(name, mesh, symmetry, model="tube", ncp=2, **kw):
         s["thickness_cp"] = 0.015 * np.ones(ncp)
     else:
         s.update({k: v.copy() for k, v in WINGBOX_AIRFOIL.items()})
+        # documented as ignored for a wingbox (the beam axis follows from the airfoil data, which puts it at 0.35 chord here):
+        # deliberately a different value, so that code reading the key for a wingbox does not go unnoticed by coincidence
+        s["fem_origin"] = 0.45
         s.update(
             {
                 "spar_thickness_cp": 0.006 * np.ones(ncp),
